@@ -400,6 +400,77 @@ theorem C02_representable_fixed (r : Int) :
     truncDiv ((r * 100000) * 10) MICRO = r :=
   ⟨quant_round_fixed r 600000 (Or.inl rfl), quant_round_fixed r 600 (Or.inr rfl), quant_trunc_fixed r⟩
 
+/-- **Encoding a position that is not on the wire grid** (any value with six decimals): a field of
+the 1/10000-minute kind is written as the wire value nearest to `v · 600000` (round half to even), at
+most half a wire step from `v`, and decoding that wire value yields the six-decimal number nearest to
+it — the model's `to_bitarray` / `from_bitarray` of the field, not only arithmetic. -/
+theorem C02_position_field (f : Field) (hk : kindOf C08.E f = some .I4) (hc : f.fromConv = .mulRound 600000)
+    (hw : 0 < f.width) (m : Int)
+    (h1 : -(2 : Int) ^ (f.width - 1) ≤ roundHalfEvenDiv (m * 600000) MICRO)
+    (h2 : roundHalfEvenDiv (m * 600000) MICRO < 2 ^ (f.width - 1)) :
+    let wire := roundHalfEvenDiv (m * 600000) MICRO
+    encodeField env f (.flt m) = .ok (ofInt f.width wire) ∧
+    decodeField env f (ofInt f.width wire) = .ok (.flt (roundHalfEvenDiv (wire * 1000000) 600000)) ∧
+    2 * (wire * MICRO - m * 600000).natAbs ≤ MICRO.natAbs := by
+  intro wire
+  have hkind := hk
+  unfold kindOf at hk
+  split at hk <;> try (simp at hk; done)
+  case h_8 hd hs ht ha =>
+    refine ⟨?_, ?_, ?_⟩
+    · have hconv : applyConv env f.fromConv (.flt m) = .ok (.int wire) := by
+        rw [hc]; rfl
+      have hcore : encodeCore f (.int wire) = .ok (ofInt f.width wire) := by
+        unfold encodeCore
+        simp only [hd, Val.micro]
+        have : truncDiv (wire * MICRO) MICRO = wire := truncDiv_mul_micro wire
+        rw [this, hs]
+        exact intToBin_signed wire f.width hw ⟨h1, h2⟩
+      have := encodeField_of env f (.flt m) (.int wire) _ hconv hcore
+      rw [this, List.take_of_length_le (by simp [ofInt])]
+    · obtain ⟨v, hv, hcheck⟩ := decodeField_spec env C08.E C08.tables_ok f .I4 hkind (ofInt f.width wire)
+        (by simp [ofInt]) hw (fun h => by cases h)
+      simp only [check, beq_iff_eq, toInt_ofInt f.width wire hw ⟨h1, h2⟩] at hcheck
+      rw [hv, hcheck]
+    · exact quant_round m 600000 (by decide)
+  all_goals (exfalso; unfold tableKind at hk; split at hk <;> split at hk <;> simp at hk)
+
+/-- **Encoding a tenths quantity that is not on the wire grid** (speed, course, draught): the field
+is written as `v · 10` truncated toward zero — never beyond `v`, less than one step away — and decoded
+as that many tenths. -/
+theorem C02_tenths_field (f : Field) (hk : kindOf C08.E f = some .U1) (hc : f.fromConv = .mulK 10)
+    (hw : 0 < f.width) (m : Int) (h0 : 0 ≤ m)
+    (h2 : truncDiv (m * 10) MICRO < 2 ^ f.width) :
+    let wire := truncDiv (m * 10) MICRO
+    encodeField env f (.flt m) = .ok (ofNat f.width wire.toNat) ∧
+    decodeField env f (ofNat f.width wire.toNat) = .ok (.flt (wire * 100000)) ∧
+    (wire * MICRO).natAbs ≤ (m * 10).natAbs ∧ (m * 10).natAbs - (wire * MICRO).natAbs < MICRO.natAbs := by
+  intro wire
+  have hq := quant_trunc m
+  have hw0 : 0 ≤ wire := hq.2.2.1 h0
+  have hkind := hk
+  unfold kindOf at hk
+  split at hk <;> try (simp at hk; done)
+  case h_6 hd hs ht ha =>
+    refine ⟨?_, ?_, hq.1, hq.2.1⟩
+    · have hconv : applyConv env f.fromConv (.flt m) = .ok (.flt (m * 10)) := by
+        rw [hc]; rfl
+      have hcore : encodeCore f (.flt (m * 10)) = .ok (ofNat f.width wire.toNat) := by
+        unfold encodeCore
+        simp only [hd, Val.micro, hs]
+        exact intToBin_unsigned wire f.width hw0 h2
+      have := encodeField_of env f (.flt m) (.flt (m * 10)) _ hconv hcore
+      rw [this, List.take_of_length_le (by simp)]
+    · obtain ⟨v, hv, hcheck⟩ := decodeField_spec env C08.E C08.tables_ok f .U1 hkind (ofNat f.width wire.toNat)
+        (by simp) hw (fun h => by cases h)
+      have hlt : wire.toNat < 2 ^ f.width := by
+        have : ((wire.toNat : Nat) : Int) < ((2 ^ f.width : Nat) : Int) := by
+          rw [Int.toNat_of_nonneg hw0]; simpa using h2
+        exact_mod_cast this
+      simp only [check, beq_iff_eq, toNat_ofNat, Nat.mod_eq_of_lt hlt, Int.toNat_of_nonneg hw0] at hcheck
+      rw [hv, hcheck]
+  all_goals (exfalso; unfold tableKind at hk; split at hk <;> split at hk <;> simp at hk)
+
 /-- **Known findings F15–F22, as theorems about the model (negation witnesses).**  `MessageType3`
 keeps its parent's default `msg_type` (the subclass redefines the field without `@attr.s`):
 `create()` without an explicit `msg_type` builds a message whose type field is 1. -/
@@ -494,6 +565,8 @@ example : Wire C08.E Generated.T_MessageType10
 #print axioms C02_quantisation_decode
 #print axioms C02_quantisation_tenths
 #print axioms C02_representable_fixed
+#print axioms C02_position_field
+#print axioms C02_tenths_field
 #print axioms C02_finding_default_msg_type
 #print axioms C02_finding_type26_short_data
 end C02
